@@ -174,4 +174,82 @@ theorem swap_spec {s : Store P} {n a b : Nat} (h : s.TWF n) (ha : a < n) (hb : b
       · simp [Array.getElem?_setIfInBounds, hs, hpa, hpb, Ne.symm hpa, Ne.symm hpb]
 
 end Store
+
+/-! ## the capacity request at the head of `extend` / `from_iter` / `deserialize`
+
+`extend` and `from_iter` start with `reserveC lo`: below `capLimit` they are the plain strategies, from `capLimit` on they
+are the capacity-overflow panic and nothing else.  `deserialize` caps its request at 4096: the announced length never
+matters. -/
+section Capacity
+open Arith
+variable {P : Type} [LT P] [DecidableLT P]
+
+theorem MaxQ.extend_of_lt {s : Store P} {lo : Nat} (xs : Array (Item × P)) (h : lo < capLimit) :
+    MaxQ.extend s lo xs =
+      if (if lo ≠ 0 then betterToRebuild s.size lo else false) = true then MaxQ.heapBuild (s.extend xs)
+      else MaxQ.pushAll xs.toList s := by
+  unfold MaxQ.extend; exact reserveC_bind_of_lt _ h
+
+theorem MaxQ.extend_of_ge {s : Store P} {lo : Nat} (xs : Array (Item × P)) (h : capLimit ≤ lo) :
+    MaxQ.extend s lo xs = .error .capacity := by
+  unfold MaxQ.extend; exact reserveC_bind_of_ge _ h
+
+theorem MaxQ.extend_ok_lt {s s' : Store P} {lo : Nat} {xs : Array (Item × P)} (h : MaxQ.extend s lo xs = .ok s') :
+    lo < capLimit := by
+  unfold MaxQ.extend at h; exact (reserveC_bind_eq_ok.1 h).1
+
+theorem DQ.extend_of_lt {s : Store P} {lo : Nat} (xs : Array (Item × P)) (h : lo < capLimit) :
+    DQ.extend s lo xs =
+      if (if lo ≠ 0 then betterToRebuild s.size lo else false) = true then DQ.heapBuild (s.extend xs)
+      else DQ.pushAll xs.toList s := by
+  unfold DQ.extend; exact reserveC_bind_of_lt _ h
+
+theorem DQ.extend_of_ge {s : Store P} {lo : Nat} (xs : Array (Item × P)) (h : capLimit ≤ lo) :
+    DQ.extend s lo xs = .error .capacity := by
+  unfold DQ.extend; exact reserveC_bind_of_ge _ h
+
+theorem DQ.extend_ok_lt {s s' : Store P} {lo : Nat} {xs : Array (Item × P)} (h : DQ.extend s lo xs = .ok s') :
+    lo < capLimit := by
+  unfold DQ.extend at h; exact (reserveC_bind_eq_ok.1 h).1
+
+theorem MaxQ.fromIter_of_lt {lo : Nat} (xs : Array (Item × P)) (h : lo < capLimit) :
+    MaxQ.fromIter lo xs = MaxQ.heapBuild (Store.fromIter xs) := by
+  unfold MaxQ.fromIter; exact reserveC_bind_of_lt _ h
+
+theorem MaxQ.fromIter_of_ge {lo : Nat} (xs : Array (Item × P)) (h : capLimit ≤ lo) :
+    MaxQ.fromIter lo xs = .error .capacity := by
+  unfold MaxQ.fromIter; exact reserveC_bind_of_ge _ h
+
+theorem MaxQ.fromIter_eq_ok {lo : Nat} {xs : Array (Item × P)} {s' : Store P} :
+    MaxQ.fromIter lo xs = .ok s' ↔ lo < capLimit ∧ MaxQ.heapBuild (Store.fromIter xs) = .ok s' := by
+  unfold MaxQ.fromIter; exact reserveC_bind_eq_ok
+
+theorem DQ.fromIter_of_lt {lo : Nat} (xs : Array (Item × P)) (h : lo < capLimit) :
+    DQ.fromIter lo xs = DQ.heapBuild (Store.fromIter xs) := by
+  unfold DQ.fromIter; exact reserveC_bind_of_lt _ h
+
+theorem DQ.fromIter_of_ge {lo : Nat} (xs : Array (Item × P)) (h : capLimit ≤ lo) :
+    DQ.fromIter lo xs = .error .capacity := by
+  unfold DQ.fromIter; exact reserveC_bind_of_ge _ h
+
+theorem DQ.fromIter_eq_ok {lo : Nat} {xs : Array (Item × P)} {s' : Store P} :
+    DQ.fromIter lo xs = .ok s' ↔ lo < capLimit ∧ DQ.heapBuild (Store.fromIter xs) = .ok s' := by
+  unfold DQ.fromIter; exact reserveC_bind_eq_ok
+
+/-- the announced length never matters: the pre-allocation is capped -/
+theorem MaxQ.deserialize_eq (hint : Option Nat) (xs : Array (Item × P)) :
+    MaxQ.deserialize hint xs = MaxQ.heapBuild (Store.visitSeq xs) := by
+  unfold MaxQ.deserialize
+  cases hint with
+  | none => rfl
+  | some h => simp only [reserveC_min_4096]; rfl
+
+theorem DQ.deserialize_eq (hint : Option Nat) (xs : Array (Item × P)) :
+    DQ.deserialize hint xs = DQ.heapBuild (Store.visitSeq xs) := by
+  unfold DQ.deserialize
+  cases hint with
+  | none => rfl
+  | some h => simp only [reserveC_min_4096]; rfl
+
+end Capacity
 end PQ
